@@ -20,8 +20,8 @@ SID_B = "S-1-5-21-11-22-33-512"
 def synth_root_key(idx: int, hash_name: str = "SHA512", secret_alg: str = "DH", extra: t.Optional[dict] = None) -> cms.RootKey:
     """extra: {"dh": [key_length, p, g], "priv_len": bits} for custom (small) DH groups / private key lengths."""
     seed = hashlib.sha512(b"root-key-%d-%s-%s" % (idx, hash_name.encode(), secret_alg.encode())).digest()
-    priv = {"DH": 512, "ECDH_P256": 256, "ECDH_P384": 384}[secret_alg]
-    pub = {"DH": 2048, "ECDH_P256": 256, "ECDH_P384": 384}[secret_alg]
+    priv = {"DH": 512, "ECDH_P256": 256, "ECDH_P384": 384, "ECDH_P521": 521}[secret_alg]
+    pub = {"DH": 2048, "ECDH_P256": 256, "ECDH_P384": 384, "ECDH_P521": 521}[secret_alg]
     params = b""
     if extra:
         if "dh" in extra:
